@@ -66,6 +66,62 @@ def _clause(eng, con, clause, fr, extra):
     return eng.eval_clause(clause, con.module, b)
 
 
+def _loop_mods(eng, con, spec, fr, ghost):
+    """modifies items of loop<K>_modifies evaluated at loop entry (for and while loops); None = anything may change"""
+    if 'modifies' not in spec:
+        return None
+    b = _bind(eng, fr, ghost)
+    names = [a.arg for a in spec['modifies'].args.args]
+    mfr = Frame(None, con.module, {x: b[x] for x in names}, None, None)
+    saved = eng.mode
+    eng.mode = SPEC
+    try:
+        try:
+            eng.exec_block(spec['modifies'].body, mfr)
+            return []
+        except ReturnEx as r:
+            return list(eng.iter_const(r.value))
+    finally:
+        eng.mode = saved
+
+
+def _log_mark(eng):
+    return {k: len(v) for k, v in eng.heap.log.items()}
+
+
+def _body_frame(eng, mods, head_heap, mark, tag, line):
+    """the writes of one arbitrary iteration stay inside loop<K>_modifies (or hit objects allocated by the iteration):
+    obligation loop-frame, without which the havoc of exactly that set at the loop head would not be justified"""
+    if mods is None:
+        return
+    allowed = eng.allowed_fn(mods)
+    alloc0 = head_heap.get('alloc', arr(Ref, B))
+    for name in sorted(eng.heap.log):
+        events = eng.heap.log[name][mark.get(name, 0):]
+        if name == 'alloc' or not events:
+            continue
+        a = allowed(name)
+        if a == 'all':
+            continue
+        new, old = eng.heap.get(name), head_heap.get(name, eng.heap.sorts[name])
+        claims, general, seen = [], False, set()
+        for evn in events:
+            ws = [evn[1]] if evn[0] == 'store' else (evn[1].refs if evn[0] == 'havoc' and evn[1] != 'all' and not evn[1].preds else None)
+            if ws is None:
+                general = True
+                break
+            for w in ws:
+                if w.get_id() not in seen:
+                    seen.add(w.get_id())
+                    claims.append(z3.Or(z3.Not(alloc0[w]), a(w) if a is not None else z3.BoolVal(False), new[w] == old[w]))
+        if general:
+            r = z3.Const('r!fr', Ref)
+            cond = alloc0[r] if a is None else z3.And(alloc0[r], z3.Not(a(r)))
+            claims = [z3.ForAll([r], z3.Implies(cond, new[r] == old[r]))]
+        if claims:
+            eng.run.oblige(f'loop-frame:{name}/{tag}', 'frame', z3.And(claims) if len(claims) > 1 else claims[0], line)
+
+
 def symbolic_for(eng, s, fr, it):
     spec, k_ord, con = find_spec(eng, fr, s)
     if spec is None or 'inv' not in spec:
@@ -91,23 +147,9 @@ def symbolic_for(eng, s, fr, it):
     # 1. initiation
     eng.run.oblige(f'loop-init:{tag}', 'inv', _clause(eng, con, spec['inv'], fr, ghost0), s.lineno)
     # 2. arbitrary iteration: havoc what the body may change
-    if 'modifies' in spec:
-        b = _bind(eng, fr, ghost0)
-        names = [a.arg for a in spec['modifies'].args.args]
-        mfr = Frame(None, con.module, {x: b[x] for x in names}, None, None)
-        saved = eng.mode
-        eng.mode = SPEC
-        try:
-            try:
-                eng.exec_block(spec['modifies'].body, mfr)
-                mods = []
-            except ReturnEx as r:
-                mods = list(eng.iter_const(r.value))
-        finally:
-            eng.mode = saved
-        eng.heap.havoc(eng.allowed_fn(mods))
-    else:
-        eng.heap.havoc(eng.allowed_fn(None))
+    mods = _loop_mods(eng, con, spec, fr, ghost0)
+    eng.heap.havoc(eng.allowed_fn(mods))
+    head_heap, mark = eng.heap.snapshot(), _log_mark(eng)
     havoc_locals(eng, fr, assigned_names(s.body) | assigned_names([s.target]))
     if is_list:
         k = eng.run.fresh('k', I)
@@ -151,6 +193,7 @@ def symbolic_for(eng, s, fr, it):
         except ContinueEx:
             pass
         eng.run.oblige(f'loop-preserve:{tag}', 'inv', _clause(eng, con, spec['inv'], fr, ghost_next), s.lineno)
+        _body_frame(eng, mods, head_heap, mark, tag, s.lineno)
         raise PathEnd()
     # 3. exit: invariant with everything processed
     if not is_list:
@@ -181,7 +224,9 @@ def symbolic_while(eng, s, fr):
     loop_old = OldNS(dict(fr.vars), eng.heap.snapshot())
     ghost = {'loop_old': loop_old}
     eng.run.oblige(f'loop-init:{tag}', 'inv', _clause(eng, con, spec['inv'], fr, ghost), s.lineno)
-    eng.heap.havoc(eng.allowed_fn(None))
+    mods = _loop_mods(eng, con, spec, fr, ghost)
+    eng.heap.havoc(eng.allowed_fn(mods))
+    head_heap, mark = eng.heap.snapshot(), _log_mark(eng)
     havoc_locals(eng, fr, assigned_names(s.body))
     eng.run.assume(_clause(eng, con, spec['inv'], fr, ghost))
     measure0 = None
@@ -201,5 +246,6 @@ def symbolic_while(eng, s, fr):
         if measure0 is not None:
             m1 = eng.eval_term(con, spec['decreases'], fr, ghost)
             eng.run.oblige(f'term:{tag}', 'term', z3.And(measure0 >= 0, m1 < measure0), s.lineno)
+        _body_frame(eng, mods, head_heap, mark, tag, s.lineno)
         raise PathEnd()
     eng.exec_block(s.orelse, fr)
